@@ -256,7 +256,7 @@ func compareView(sys *tarfs.FS, t *otree, rnd func(int) int) []failure {
 					data, _ := t.content(tn)
 					b, err := io.ReadAll(f)
 					if err != nil || !bytes.Equal(b, data) {
-						add("follow", "Open(%q) reads %d bytes (err %v), the link resolves to %q with %d bytes", w.path, len(b), err, pathOf(tn), len(data))
+						add("follow", "Open(%q) reads %d bytes (fnv %d, err %v), the link resolves to %q with %d bytes (fnv %d)", w.path, len(b), fnv(b), err, pathOf(tn), len(data), fnv(data))
 					}
 				}
 				f.Close()
